@@ -325,6 +325,7 @@ def driveLocks (toks : List String) : String :=
     if held == "-" then "R ok"
     else if (held.splitOn ",").any (fun h => (Locks.Cls.ofName? h).isNone) then "R unknown-lock-class"
     else if Locks.blockingChannelPoints.contains point then "R lock-held-at-blocking-channel-operation"
+    else if !Locks.heldAllowedAt point (held.splitOn ",") then "R lock-held-where-the-model-holds-none"
     else "R ok"
   | _ => "R bad-locks-line"
 
